@@ -71,10 +71,11 @@ class SChunks:
 
 class SData:
     """xarray.DataArray facade: .data / .shape / .dims / .coords"""
-    def __init__(self, arr, dims=None, name=None):
+    def __init__(self, arr, dims=None, name=None, owner=None):
         self.arr = arr
         self.dims = dims
         self.name = name
+        self.owner = owner   # the dataset whose coordinates label this array (None: a bare array, assigned positionally)
 
 
 class SDs:
@@ -85,6 +86,9 @@ class SDs:
         self.coords = coords
         self.attrs = attrs
         self.sizes = sizes
+        for d in list(variables.values()) + list(coords.values()):
+            if isinstance(d, SData) and getattr(d, "owner", None) is None:
+                d.owner = self
 
 
 def shape_of(a):
